@@ -38,6 +38,7 @@ DERIVE_TRAITS = {
 }
 
 _re_const_int = re.compile(r'(-?\d+)_(u8|u16|u32|u64|u128|usize|i8|i16|i32|i64|i128|isize)$')
+_CANON = [(' as std::iter::Iterator>', ' as Iterator>'), ('std::io::BufWriter::', 'BufWriter::'), ('server::types::', 'types::')]
 _re_impl_at = re.compile(r'<impl at (src/[^:]+):(\d+):(\d+): (\d+):(\d+)>')
 
 
@@ -131,7 +132,11 @@ def _last_seg(ty):
 
 
 class Interp:
-    def __init__(self, mirfile, repo='/repo'):
+    def __init__(self, mirfile, repo='/repo', exclude_files=None):
+        # exclude_files: regex over source paths whose impls are never instantiated by any harness (modules that are
+        # thin wrappers over FFI); their impls are left out of trait-method resolution so that equally named types
+        # (sqlite's Txn vs. the in-memory Txn) do not make it ambiguous
+        self.exclude_files = exclude_files
         self.crate = MirCrate(mirfile)
         self.src = SourceInfo(repo)
         self.ctx = None
@@ -148,6 +153,7 @@ class Interp:
         self.encoded = set()         # crate functions actually executed (for evidence)
         self.modelled = set()        # model keys actually used
         self.env = {}                # harness-provided hooks (clock, rng, ...)
+        self.drop_hooks = False      # set by harnesses whose model values have destructors with effects
         self._index()
         from . import models
         self.models = models.REGISTRY
@@ -177,6 +183,8 @@ class Interp:
                 if prefix in seen:
                     continue
                 seen.add(prefix)
+                if self.exclude_files and re.search(self.exclude_files, m.group(1)):
+                    continue
                 hd = self.src.impl_header(m.group(1), int(m.group(2)), int(m.group(3)), int(m.group(4)), int(m.group(5)))
                 if hd[0] == 'impl':
                     text = hd[1]
@@ -210,6 +218,21 @@ class Interp:
                         rest = rest[k + 1:]
                         break
         return 'impl ' + rest.strip()
+
+    def impl_for(self, trait, name, ty_hint=''):
+        """impl prefix of `trait` for the type whose last path segment is `name`; equally named types in different
+        modules (taskdb::sync::Version / server::local::Version in the 'full' dump) are told apart by the module path of
+        the declared type"""
+        lst = self.impls.get((trait, name)) or []
+        if len(lst) <= 1:
+            return lst[0] if lst else None
+        t = strip_generics(ty_hint or '').lstrip('&').strip()
+        if '::' in t:
+            mod = t.rsplit('::', 1)[0] + '::'
+            narrowed = [n for n in lst if n.split('<impl at')[0].endswith(mod) or n.split('<impl at')[0].endswith(mod + '_::')]
+            if len(narrowed) == 1:
+                return narrowed[0]
+        raise Unsupported(f'ambiguous {trait} impl for {name} (declared type {ty_hint!r}): {lst}')
 
     # ------------------------------------------------------------------ enum helpers
     def variant_index(self, enum, variant):
@@ -473,6 +496,11 @@ class Interp:
         sp = self._resolve_cache.get(path)
         if sp is None:
             sp = strip_generics(path)
+            # rustc prints the shortest unambiguous path: with more dependencies compiled in (the 'full' dump) some
+            # std names are qualified; bring them back to the form the models are keyed by
+            for a, b in _CANON:
+                if a in sp:
+                    sp = sp.replace(a, b)
             self._resolve_cache[path] = sp
         ch = self.env.get('call_hook')
         if ch is not None:
@@ -523,6 +551,12 @@ class Interp:
                         cands.append(n)
                 if cands:
                     break
+            if len(cands) > 1 and '::' in selfty:
+                # equally named types in different modules: keep the impls whose path carries the module of the self type
+                mod = strip_generics(selfty).rsplit('::', 1)[0] + '::'
+                narrowed = [n for n in cands if n.split('<impl at')[0].endswith(mod) or n.split('<impl at')[0].endswith(mod + '_::')]
+                if narrowed:
+                    cands = narrowed
             if len(cands) == 1:
                 return cands[0]
             if len(cands) > 1:
@@ -681,6 +715,15 @@ class Interp:
                         bb = st[1]
                         break
                     elif k == 'drop':
+                        # drops are elaborated (executed only for initialised places); only model values that have
+                        # a destructor with an observable effect (a database transaction rolls back) react
+                        if self.drop_hooks:
+                            try:
+                                dv = self.lv(frame, st[1]).get()
+                            except Exception:  # noqa
+                                dv = None
+                            if hasattr(dv, 'on_drop'):
+                                dv.on_drop(self)
                         bb = st[2]['return']
                         break
                     elif k == 'return':
